@@ -752,6 +752,7 @@ static uint64_t pristine_reference(const char *text) {
 int main(int argc, char **argv) {
   HCv h; g_h = &h;
   bool c06 = true; for (int i = 1; i + 1 < argc; i++) if (!strcmp(argv[i], "--prop") && !strcmp(argv[i + 1], "C05")) c06 = false;
+  blas_single_thread(argv);   // before the reference server is forked
   if (c06 && argc > 1 && (!strcmp(argv[1], "run") || !strcmp(argv[1], "replay"))) pristine_start(pristine_reference);   // before the first library call of this process
   return harness_main(h, argc, argv);
 }
